@@ -213,6 +213,44 @@ Proof.
   - apply sort_desc_sorted.
 Qed.
 
+(* the stable sort commutes with every filter (no distinctness needed) *)
+Lemma desc_le_lt {A} (key : A -> string) x y z : String.ltb (key y) (key z) = false -> String.ltb (key y) (key x) = true ->
+  String.ltb (key z) (key x) = true.
+Proof.
+  intros H1 H2. destruct (String.ltb (key z) (key x)) eqn:E; auto.
+  destruct (string_dec (key z) (key x)) as [Q|Q]. { rewrite Q in H1. congruence. }
+  destruct (sltb_total _ _ Q) as [T|T]; [congruence|]. rewrite (sltb_trans _ _ _ H2 T) in H1. discriminate.
+Qed.
+Lemma ins_desc_front {A} (key : A -> string) x y l :
+  StronglySorted (desc key) (y :: l) -> String.ltb (key y) (key x) = true -> forall P, ins_desc key x (filter P (y :: l)) = x :: filter P (y :: l).
+Proof.
+  intros S H P. inversion S as [|? ? S' F]; subst. simpl. destruct (P y); simpl. { rewrite H. reflexivity. }
+  clear S. induction l as [|z l IH]; simpl; auto. inversion F; subst. inversion S'; subst.
+  destruct (P z); simpl.
+  - unfold desc in H2. rewrite (desc_le_lt key x y z H2 H). reflexivity.
+  - apply IH; auto.
+Qed.
+Lemma ins_desc_filter {A} (key : A -> string) (P : A -> bool) x l : StronglySorted (desc key) l ->
+  filter P (ins_desc key x l) = if P x then ins_desc key x (filter P l) else filter P l.
+Proof.
+  induction 1 as [|y l S IH F].
+  - simpl. destruct (P x); reflexivity.
+  - cbn [ins_desc]. destruct (String.ltb (key y) (key x)) eqn:E.
+    + cbn [filter]. destruct (P x) eqn:Px; auto.
+      change (if P y then y :: filter P l else filter P l) with (filter P (y :: l)).
+      rewrite (ins_desc_front key x y l); auto. constructor; auto.
+    + cbn [filter]. rewrite IH. destruct (P x), (P y); simpl; try rewrite E; reflexivity.
+Qed.
+Lemma sort_desc_filter {A} (key : A -> string) (P : A -> bool) l : filter P (sort_desc key l) = sort_desc key (filter P l).
+Proof.
+  unfold sort_desc.
+  assert (G : forall l acc, StronglySorted (desc key) acc ->
+              filter P (fold_left (fun acc x => ins_desc key x acc) l acc) = fold_left (fun acc x => ins_desc key x acc) (filter P l) (filter P acc)).
+  { clear l. induction l as [|x l IH]; intros acc S; simpl; auto.
+    rewrite IH by (apply ins_desc_sorted; auto). rewrite ins_desc_filter by auto. destruct (P x); reflexivity. }
+  apply (G l []). constructor.
+Qed.
+
 (* two key functions that compare alike on the elements of l sort l alike *)
 Lemma ins_desc_ext {A} (k1 k2 : A -> string) x l :
   (forall y, In y l -> String.ltb (k1 y) (k1 x) = String.ltb (k2 y) (k2 x)) -> ins_desc k1 x l = ins_desc k2 x l.
